@@ -194,6 +194,61 @@ def split_pieces_are_the_text_between_delimiters(ctx):
               "the input is cut where a character equals the delimiter parameter", "no comparison with the delimiter parameter found in Util::split")
 
 
+
+def components_come_from_split(ctx):
+    """Every component a CgroupPath ever stores is a piece of Util::split(text, '/') of the text it was given - as given, not trimmed or
+    otherwise rewritten first.  resolveWildcard builds its results with the same constructor from the directory names glob(3) found: a
+    constructor that edits the text turns an existing cgroup's name into another cgroup's (shared by C01: the victim is a cgroup matched
+    by the configured pattern)."""
+    P, cg = ctx.prog, ctx.cg
+    # ---- (6) canonical components: every component ever stored comes out of Util::split(text, '/') (never empty, never containing '/')
+    n_cw = 0
+    for f in sorted(P.fns.values(), key=lambda x: x.line):
+        if f.cls != "Oomd::CgroupPath":
+            continue
+        Xc = Expander(P, f, mark_modified=True)
+        for i in range(len(f.nodes)):
+            if "F:Oomd::CgroupPath::cgroup_path_" not in node_writes(f, i) or f.pos_of(i) is None:
+                continue
+            n_ = f.nodes[i]
+            nm = n_.get("cname") or n_.get("op") or ""
+            t = Xc(i)
+            n_cw += 1
+            if nm in ("pop_back", "reserve", "clear", "shrink_to_fit"):
+                ok_ = True
+            elif nm in ("operator=", "="):
+                rhs = t.split("=", 1)[1] if "=" in t else t
+                ok_ = re.search(r"Oomd::Util::split\(param:\w+, 47\)", t) is not None or re.search(r"(param:)?other\.cgroup_path_", t) is not None
+            elif nm in ("emplace_back", "push_back"):
+                a = Xc(f.nodes[i]["args"][0]) if f.nodes[i].get("args") else ""
+                a = re.sub(r"^std::move\((.*)\)$", r"\1", a)
+                # an element of the split result, whichever way it is addressed (range-for, iterator, index)
+                ok_ = re.match(r"^elem\(Oomd::Util::split\(param:\w+, 47\)\)$", a) is not None or \
+                    re.match(r"^Oomd::Util::split\(param:\w+, 47\)(\[[^\[\]]*\]|\.at\([^()]*\))$", a) is not None
+            elif nm in ("insert", "assign", "append_range", "insert_range") and len(f.nodes[i].get("args", [])) >= 2:
+                # a whole range appended at once: [split(..).begin(), split(..).end()) (move iterators or not), at the vector's end
+                aa = [re.sub(r"^std::make_move_iterator\((.*)\)$", r"\1", Xc(x)) for x in f.nodes[i]["args"]]
+                rng = aa[-2:]
+                SPL = r"Oomd::Util::split\(param:\w+, 47\)"
+                ok_ = re.match(r"^%s\.c?begin\(\)$" % SPL, rng[0]) is not None and re.match(r"^%s\.c?end\(\)$" % SPL, rng[1]) is not None and \
+                    (nm != "insert" or re.search(r"cgroup_path_\.c?end\(\)\)?$", aa[0]) is not None)
+            elif nm == "back_inserter":
+                # std::move / std::copy(split(..).begin(), split(..).end(), std::back_inserter(components)): the same whole-range append
+                par_ = f.parent.get(i)
+                while par_ is not None and f.nodes[par_]["k"] in ("cast", "paren", "other", "construct"):
+                    par_ = f.parent.get(par_)
+                pn_ = f.nodes[par_] if par_ is not None else {}
+                SPL = r"Oomd::Util::split\(param:\w+, 47\)"
+                ok_ = pn_.get("k") == "call" and (pn_.get("callee") or "").split("(")[0] in ("std::move", "std::copy") and len(pn_.get("args", [])) == 3 and \
+                    re.match(r"^%s\.c?begin\(\)$" % SPL, Xc(pn_["args"][0])) is not None and re.match(r"^%s\.c?end\(\)$" % SPL, Xc(pn_["args"][1])) is not None
+            else:
+                ok_ = False
+            ctx.check(ok_, "components-come-from-split:%s@%s:%d" % (f.name, nm, n_.get("line", 0)), "who-may-write + provenance", f.loc(i),
+                      "%s stores only pieces of Util::split(text, '/') (or removes / copies components)" % f.name,
+                      "%s writes the component vector with %s: a component may be empty or contain '/', so equal paths get different canonical forms" % (f.name, t[:120]))
+    ctx.counters["component_vector_writes"] = n_cw
+    ctx.floor("component_vector_writes", 4, "writes of cgroup_path_ (constructor, getParent, getChild)")
+
 def run(ctx):
     split_pieces_are_the_text_between_delimiters(ctx)
     P, cg = ctx.prog, ctx.cg
@@ -329,53 +384,7 @@ def run(ctx):
               "recomputeReadCache does not build root + '/' + relative: %s (resolveWildcard maps glob results back by the character after the root, "
               "and equality / hashing go through this text)" % why)
     pattern_match_rule(ctx)
-    # ---- (6) canonical components: every component ever stored comes out of Util::split(text, '/') (never empty, never containing '/')
-    n_cw = 0
-    for f in sorted(P.fns.values(), key=lambda x: x.line):
-        if f.cls != "Oomd::CgroupPath":
-            continue
-        Xc = Expander(P, f, mark_modified=True)
-        for i in range(len(f.nodes)):
-            if "F:Oomd::CgroupPath::cgroup_path_" not in node_writes(f, i) or f.pos_of(i) is None:
-                continue
-            n_ = f.nodes[i]
-            nm = n_.get("cname") or n_.get("op") or ""
-            t = Xc(i)
-            n_cw += 1
-            if nm in ("pop_back", "reserve", "clear", "shrink_to_fit"):
-                ok_ = True
-            elif nm in ("operator=", "="):
-                rhs = t.split("=", 1)[1] if "=" in t else t
-                ok_ = re.search(r"Oomd::Util::split\(param:\w+, 47\)", t) is not None or re.search(r"(param:)?other\.cgroup_path_", t) is not None
-            elif nm in ("emplace_back", "push_back"):
-                a = Xc(f.nodes[i]["args"][0]) if f.nodes[i].get("args") else ""
-                a = re.sub(r"^std::move\((.*)\)$", r"\1", a)
-                # an element of the split result, whichever way it is addressed (range-for, iterator, index)
-                ok_ = re.match(r"^elem\(Oomd::Util::split\(param:\w+, 47\)\)$", a) is not None or \
-                    re.match(r"^Oomd::Util::split\(param:\w+, 47\)(\[[^\[\]]*\]|\.at\([^()]*\))$", a) is not None
-            elif nm in ("insert", "assign", "append_range", "insert_range") and len(f.nodes[i].get("args", [])) >= 2:
-                # a whole range appended at once: [split(..).begin(), split(..).end()) (move iterators or not), at the vector's end
-                aa = [re.sub(r"^std::make_move_iterator\((.*)\)$", r"\1", Xc(x)) for x in f.nodes[i]["args"]]
-                rng = aa[-2:]
-                SPL = r"Oomd::Util::split\(param:\w+, 47\)"
-                ok_ = re.match(r"^%s\.c?begin\(\)$" % SPL, rng[0]) is not None and re.match(r"^%s\.c?end\(\)$" % SPL, rng[1]) is not None and \
-                    (nm != "insert" or re.search(r"cgroup_path_\.c?end\(\)\)?$", aa[0]) is not None)
-            elif nm == "back_inserter":
-                # std::move / std::copy(split(..).begin(), split(..).end(), std::back_inserter(components)): the same whole-range append
-                par_ = f.parent.get(i)
-                while par_ is not None and f.nodes[par_]["k"] in ("cast", "paren", "other", "construct"):
-                    par_ = f.parent.get(par_)
-                pn_ = f.nodes[par_] if par_ is not None else {}
-                SPL = r"Oomd::Util::split\(param:\w+, 47\)"
-                ok_ = pn_.get("k") == "call" and (pn_.get("callee") or "").split("(")[0] in ("std::move", "std::copy") and len(pn_.get("args", [])) == 3 and \
-                    re.match(r"^%s\.c?begin\(\)$" % SPL, Xc(pn_["args"][0])) is not None and re.match(r"^%s\.c?end\(\)$" % SPL, Xc(pn_["args"][1])) is not None
-            else:
-                ok_ = False
-            ctx.check(ok_, "components-come-from-split:%s@%s:%d" % (f.name, nm, n_.get("line", 0)), "who-may-write + provenance", f.loc(i),
-                      "%s stores only pieces of Util::split(text, '/') (or removes / copies components)" % f.name,
-                      "%s writes the component vector with %s: a component may be empty or contain '/', so equal paths get different canonical forms" % (f.name, t[:120]))
-    ctx.counters["component_vector_writes"] = n_cw
-    ctx.floor("component_vector_writes", 4, "writes of cgroup_path_ (constructor, getParent, getChild)")
+    components_come_from_split(ctx)
     gp = ctx.fn1("Oomd::CgroupPath::getParent")
     pops = gp.calls("pop_back")
     fgp = Flow(P, gp, events={i: [("set", "popped")] for i in pops}, cg=cg)
